@@ -192,6 +192,9 @@ class Build:
             return list(carr(r[1], self.val))
         if r[0] == "arr2":
             return carr2(r[1], self.val)
+        if r[0] == "lst2":   # nested Python list / tuple operand
+            rows = [list(row) for row in carr2(r[1], self.val)]
+            return tuple(tuple(row) for row in rows) if len(r) > 2 and r[2] == "tuple" else rows
         if r[0] in ("mat", "mT", "mslice", "mbin", "mrbin", "mneg"):
             return self.M(r)
         return self.V(r)
@@ -465,7 +468,7 @@ class Ref:
             return cval(r[1], self.val)
         if r[0] in ("arr", "lst"):
             return carr(r[1], self.val)
-        if r[0] == "arr2":
+        if r[0] in ("arr2", "lst2"):
             return carr2(r[1], self.val)
         if r[0] in ("mat", "mT", "mslice", "mbin", "mrbin", "mneg"):
             return self.M(r)
@@ -660,7 +663,7 @@ def free_names(r, acc=None):
         elif k in ("arr", "lst"):
             for e in r[1]:
                 c(e)
-        elif k == "arr2":
+        elif k in ("arr2", "lst2"):
             for row in r[1]:
                 for e in row:
                     c(e)
